@@ -75,6 +75,18 @@ func Blob(name string, n int) []byte {
 	return b
 }
 
+// BlobLike is Blob with candidates: byte strings the counterexample may have chosen the blob to be EQUAL to (a digest,
+// an address...). If the assignment says "equal to candidate i", the candidate's native bytes are returned.
+func BlobLike(name string, n int, candidates ...[]byte) []byte {
+	load()
+	k := cursor[name+"[]"]
+	b := Blob(name, n)
+	if ref, ok := assignment[fmt.Sprintf("%s[]#%d@cand", name, k)]; ok && len(ref) == 1 && int(ref[0]) < len(candidates) && len(candidates[ref[0]]) == n {
+		copy(b, candidates[ref[0]])
+	}
+	return b
+}
+
 // MalformedSig returns 65 bytes on which ecrecover fails for every digest: r = 0, other bytes from the assignment.
 func MalformedSig(name string) []byte {
 	b := Bytes(name, 65)
